@@ -472,3 +472,16 @@ def velocity_for_temp_bare_vs_quantity(unit, x, modifier):
 def mk_multibc(**kw):
     return DragModelMultiBC([BCPoint(0.3, 1.0)], [{'Mach': 0.0, 'CD': 0.3}, {'Mach': 1.0, 'CD': 0.4},
                                                   {'Mach': 2.0, 'CD': 0.3}], **kw)
+
+
+# ---------------------------------------------------------------------------------------
+# C01: the stated vector field, written from the property statement
+def air_speed(v, w):
+    return math.sqrt((v.x - w.x) * (v.x - w.x) + (v.y - w.y) * (v.y - w.y) + (v.z - w.z) * (v.z - w.z))
+
+
+def retardation(calc, atmo, p_y, sigma):
+    """(air density ratio at the projectile's altitude) x (air-relative speed) x (drag function of the air-relative
+    Mach number / BC): the scalar that multiplies the air-relative velocity in the acceleration"""
+    rc = atmo.get_density_factor_and_mach_for_altitude(calc.alt0 + p_y)
+    return rc[0] * sigma * calc.drag_by_mach(sigma / rc[1])
